@@ -36,7 +36,7 @@ def run(chk):
     from . import legacy_solver
     legacy_solver.nondimensional(chk, repo, X.Decider(seed=chk.seed, k=3), 'R03.4')
     chk.floor('R03.4', 14)
-    chk.floor('R03.1', 15); chk.floor('R03.2', 48); chk.floor('R03.3', 4)
+    chk.floor('R03.1', 15); chk.floor('R03.2', 48); chk.floor('R03.3', 7)
 
 
 def Gatom_hook(itp, mod, nm):
@@ -209,7 +209,17 @@ def misc_cov(chk, repo, d, eq):
     node = find_if(f, lambda n: ast.unparse(n.test) == 'solve_for is None')
     D = S.Dims()
     l = X.atom('l', 'pos'); R = D.atom('R_planet', 'pos', m=1); rho = D.atom('rho_bulk', 'pos', kg=1, m=-3)
-    it = Interp(repo)
+    # other locals of the solver the fragment may read: free atoms carrying the unit their name stands for in cf_radial_solver
+    KNOWN_UNITS = {'surface_gravity': S.ACCEL, 'G_to_use': S.GRAV_G, 'radius_planet': S.LENGTH, 'planet_bulk_density': S.DENSITY, 'frequency_to_use': S.FREQ, 'frequency': S.FREQ}
+    from .common import local_atoms_hook
+    base_hook = local_atoms_hook(ms, f)
+
+    def units_hook(itp, m, nm):
+        v = base_hook(itp, m, nm)
+        if v is not None:
+            D.d[v.val] = KNOWN_UNITS.get(nm, {})
+        return v
+    it = Interp(repo, hooks={'global': units_hook})
     fr = Frame(ms, 'cf_radial_solver'); bc = Arr('bc')
     fr.vars.update({'solve_for': ('tidal', 'loading', 'free'), 'bc_pointer': bc, 'degree_l_dbl': l, 'radius_planet_to_use': R, 'bulk_density_to_use': rho, 'max_num_solutions': 5, 'num_ytypes': 1})
     it.exec(node, fr)
@@ -260,6 +270,34 @@ def misc_cov(chk, repo, d, eq):
         y1 = solution.store[sl * 6 + 0]; y2 = solution.store[sl * 6 + 1]; y5 = solution.store[sl * 6 + 4]
         Pk = {'r': rad.get(sl), 'rho': den.get(sl), 'g': grv.get(sl), 'w': w}
         eq('R03.2', f'collapse slice {sl}: y3 == (rho g y1 - y2 - rho y5)/(w^2 rho r) (the elimination used by the liquid ODEs)', solution.store[sl * 6 + 2], ts72.liquid_dynamic_y3(y1, y2, y5, Pk), mc.where(fc))
+    # collapse for every layer kind: output column of y_name == sum_s C_s * (stored solution s)[slot of y_name in that kind's layout]; units follow
+    for (kind, static) in (('solid', False), ('liquid', False), ('liquid', True)):
+        layk = ts72.LAYOUT[(kind, static)]; nys = len(layk); nsol = ts72.NUM_SOLS[(kind, static)]
+        D5 = S.Dims()
+        w5 = D5.atom('w', 'pos', s=-1)
+        rad5 = Arr('r', default=lambda k: D5.atom(f'r{k}', 'pos', m=1)); den5 = Arr('rho', default=lambda k: D5.atom(f'rho{k}', 'pos', kg=1, m=-3)); grv5 = Arr('g', default=lambda k: D5.atom(f'g{k}', 'pos', m=1, s=-2))
+        sols5 = [Arr(f'sol{s_}', default=lambda k, s_=s_: D5.atom(f's{s_}_{k // nys}_{layk[k % nys]}', 'complex', **{u: e_ for u, e_ in S.YDIM[layk[k % nys]].items()})) for s_ in range(nsol)]
+        storage5 = Arr('storage', default=lambda k: sols5[k])
+        cv5 = Arr('c', default=lambda k: X.atom(f'C{k}', 'complex'))
+        out5 = Arr('solution')
+        Interp(repo).call(mc, fc, [out5, cv5, storage5, rad5, den5, grv5, w5, 0, 2, nsol, 6, nys, 6, 0, 0 if kind == 'solid' else 1, static, False])
+        lab = f'{kind}{" static" if static else (" dynamic" if kind == "liquid" else "")}'
+        bad = []
+        for sl in range(2):
+            for j, nm in enumerate(names6):
+                v = out5.store.get(sl * 6 + j)
+                if nm in layk:
+                    ref = X.ZERO
+                    for s_ in range(nsol):
+                        ref = ref + cv5.get(s_) * sols5[s_].get(sl * nys + layk.index(nm))
+                    if not isinstance(v, X.Node) or not d.equal(v, ref):
+                        bad.append(f'slice {sl}: {nm} is not sum_s C_s * stored {nm} (slot {layk.index(nm)})')
+                    elif not d.equal(D5.scaled(v), S.factor(S.YDIM[nm]) * v):
+                        bad.append(f'slice {sl}: {nm} does not carry the unit of {nm}')
+                elif isinstance(v, X.Node) and not (kind == 'liquid' and not static and nm == 'y3'):
+                    bad.append(f'slice {sl}: {nm} is given a value although a {lab} layer does not carry it')
+        chk.ob('R03.3', f'collapse of a {lab} layer: each output column y_k is the combination of the stored component of the same name (layout {layk}), with its unit', not bad, '; '.join(bad[:3]),
+               mc.where(fc), key=f'R03.3|collapse|{lab}', method='interpretation + GF(p^2) PIT + scaling covariance')
     # love numbers are dimensionless
     ml = repo.by_path('TidalPy/RadialSolver/love.pyx')
     fl = need_func(ml, 'find_love_cf')
@@ -306,16 +344,21 @@ def layout(chk, repo, d, eq):
     # reader: re-dimensionalisation
     md = repo.by_path('TidalPy/utilities/dimensions/nondimensional.pyx')
     fy = need_func(md, 'cf_redimensionalize_radial_functions')
-    frr = Frame(md, 'r'); frr.vars.update({'slice_i': Sx, 'num_solutions': N, 'solver_i': T})
-    okr = True; cnt = 0
-    for n in ast.walk(fy):
-        if isinstance(n, ast.AugAssign) and isinstance(n.target, ast.Subscript):
-            cnt += 1
-            idx = it.eval(n.target.slice, frr)
-            # y index is the literal offset
-            off = d.values(idx - (Sx * (6 * N) + T * 6))
-            okr = okr and any(d.equal(idx, Sx * (6 * N) + T * 6 + j) for j in range(6))
-    chk.ob('R03.3', 'reader (re-dimensionalisation): addresses slice*(6*num_solutions) + type*6 + y, called with num_solutions = num_ytypes', okr and cnt == 6, f'{cnt} stores', md.where(fy), method='index polynomial identity')
+    # decided by interpretation, independent of how the function walks the buffer: on a (3 slices x 3 types) buffer exactly the elements slice*(6*3) + type*6 + y are
+    # rescaled, each by the factor of y (the factors themselves are R03.1's business)
+    bufr = Arr('radial', default=lambda k: X.atom(f'ynd{k}', 'complex'))
+    nsl_, nty_ = 3, 3
+    orig_ = {k: bufr.get(k) for k in range(nsl_ * 6 * nty_)}
+    for k, v in orig_.items(): bufr.store[k] = v
+    Rr = X.atom('Rmean', 'pos'); rhor = X.atom('rho_bulk', 'pos')
+    Interp(repo, hooks={'global': Gatom_hook}).call(md, fy, [bufr, Rr, rhor, nsl_, nty_])
+    badr = []
+    extra = sorted(k for k in bufr.store if k not in orig_)
+    for k in range(nsl_ * 6 * nty_):
+        if not d.equal(bufr.store[k] / orig_[k], bufr.store[k % 6] / orig_[k % 6]):
+            badr.append(f'element {k} (slice {k // (6 * nty_)}, type {(k // 6) % nty_}, y{k % 6 + 1})')
+    chk.ob('R03.3', 'reader (re-dimensionalisation): element slice*(6*num_solutions) + type*6 + y is rescaled as y of every slice and every solution type, nothing else is touched', not badr and not extra,
+           f'not rescaled like the first type: {badr[:4]}' + (f'; writes outside the buffer: {extra[:4]}' if extra else ''), md.where(fy), method='interpretation on a 3x3 buffer + GF(p^2) PIT')
     call = [n for n in ast.walk(f) if isinstance(n, ast.Call) and isinstance(n.func, ast.Name) and n.func.id == 'cf_redimensionalize_radial_functions']
     okc = bool(call) and [ast.unparse(a) for a in call[0].args] == ['solution_ptr', 'radius_planet', 'planet_bulk_density', 'total_slices', 'num_ytypes']
     chk.ob('R03.3', 'cf_radial_solver re-dimensionalises the whole solution with (planet radius, bulk density, total_slices, num_ytypes)', okc, f'{[ast.unparse(a) for a in call[0].args] if call else None}', ms.where(call[0]) if call else ms.rel(),
